@@ -86,6 +86,21 @@ def textRichMeasureE (guard split : Char → Bool) (cw : Char → Nat) (plain : 
     pyMax ((splitWords split plain []).map (cellLen cw)) >>= fun minW =>
     .ok ⟨(minW : Int), (maxW : Int)⟩
 
+/-- `str.split("\n")`: always at least one line (`"".split("\n") == [""]`) -/
+def splitNLPy : List Char → List Char → List (List Char)
+  | [], cur => [cur.reverse]
+  | c :: r, cur => if c == '\n' then cur.reverse :: splitNLPy r [] else splitNLPy r (c :: cur)
+
+/-- `Text.__rich_measure__` as /repo has it since fix 542a59e (2026-09-29): the maximum is taken over `text.split("\n")`
+(the lines `Text.wrap` produces) instead of `text.splitlines()`; everything else as `textRichMeasureE`, which is the code
+before that fix. -/
+def textRichMeasureNL (guard split : Char → Bool) (cw : Char → Nat) (plain : List Char) : Except PyErr Measurement :=
+  if plain.all guard then .ok ⟨cellLen cw plain, cellLen cw plain⟩
+  else
+    pyMax ((splitNLPy plain []).map (cellLen cw)) >>= fun maxW =>
+    pyMax ((splitWords split plain []).map (cellLen cw)) >>= fun minW =>
+    .ok ⟨(minW : Int), (maxW : Int)⟩
+
 /-- `" \t\n"`: the blanks a narrower guard would strip -/
 def asciiBlank (c : Char) : Bool := c == ' ' || c == '\t' || c == '\n'
 
